@@ -790,10 +790,25 @@ def status_guard(batch_pred, status, name=None):
     return Guard(name or ("status==" + status), boolean=boolean, variant=variant)
 
 
-def is_fee(prog, t):
+def via_forms(prog, pred, depth=2):
+    """pred lifted to value forms: true if the term, or the same value with local helpers / constructors
+    inlined (a component of a tuple-returning helper, a builder method), satisfies pred"""
+    from engine.analysis import forms
+
+    def f(t):
+        if pred(t):
+            return True
+        return any(pred(x) for x in forms(prog, t, depth))
+    return f
+
+
+def is_fee(prog, t, _lift=True):
     from .common import const_int
     p = fee_term(prog, t)
     if p is None:
+        if _lift and (t[0] in ("field", "payload") or (t[0] == "call" and _body_of_call(prog, t) is not None)):
+            # a component of a helper's result (`cfg.split_rewards(amount)?.0`): the value behind it
+            return via_forms(prog, lambda x: is_fee(prog, x, False))(t)
         return False
     a, b, c = p
     rate = lambda x: loaded_field(prog, x, "config", ["protocol_fee_config", "dao_treasury_fee"], "staking")
